@@ -7,7 +7,9 @@ PROP = dict(
          'with absolute, unclean and relative values, comments, blank lines, CRLF, random key case and spacing; the '
          'chain head reached through -config, LAYERCONF, $HOME/.layercake or <exe>/../etc/layercake.conf with competing '
          'candidates; -basepath and LAYERROOT set or not; every 5th case adds malformed lines (unknown keys with and '
-         'without value, lines without "=", documented-only spellings, duplicates, Unicode white space and letters). '
+         'without value, lines without "=", documented-only spellings, duplicates, Unicode white space and letters); every 8th case is a '
+         'chain whose first 1..3 files (plus -basepath/LAYERROOT) already supply all eleven settings, followed by a loop '
+         'back, an unknown key, a missing file, a directory or a harmless file. '
          'Non-trivial: the chain has >= 2 files or a switch/environment override competes with a file value; distinct '
          'by the whole input',
     explanation='theorems: Load never hangs (fuel = files+2 suffices); a successful Load returns clean absolute '
